@@ -101,7 +101,7 @@ class SymCtx(_CtxBase):
         self.eng.inputs["lg:" + name] = t
         return LogReal(t)
 
-    def uf(self, name, arity=1):
+    def uf(self, name, arity=1, concrete=None):
         f = z3.Function(name, *([z3.RealSort()] * (arity + 1)))
         self.eng.ufs[name] = f
 
@@ -203,8 +203,12 @@ class ConcCtx(_CtxBase):
     def logreal(self, name):
         return 10.0 ** float(self.values["lg:" + name])
 
-    def uf(self, name, arity=1):
-        return self.ufs[name]
+    def uf(self, name, arity=1, concrete=None):
+        if name in self.ufs:
+            return self.ufs[name]
+        if concrete is None:
+            raise KeyError("no concrete instance for uninterpreted function " + name)
+        return concrete
 
     def assume(self, cond):
         if not bool(cond):
@@ -343,8 +347,10 @@ def run_task(task):
         state = {"ctx": None, "npaths": 0}
         witness_every = opts.get("witness_every", 1)
 
+        analytic = getattr(H, "CONCRETE_UF", "model") == "analytic"
+
         def replay(values, ufs):
-            return run_concrete(H, case, values, ufs, fopen, canary)
+            return run_concrete(H, case, values, None if analytic else ufs, fopen, canary)
 
         def fn():
             ctx = SymCtx(eng, case, fopen, canary, replay)
